@@ -519,6 +519,7 @@ impl<'a, R: RoleType, T: IsPacketId> Gen<'a, R, T> {
                 self.op(format!("send {} {}", v, hex(&b)));
                 self.after_send(id);
                 self.subs.push((id, true));
+                self.maybe_write_error(id);
             }
             2 => {
                 let id = self.fresh_id();
@@ -527,6 +528,7 @@ impl<'a, R: RoleType, T: IsPacketId> Gen<'a, R, T> {
                 self.op(format!("send {} {}", v, hex(&b)));
                 self.after_send(id);
                 self.subs.push((id, false));
+                self.maybe_write_error(id);
             }
             3 | 4 => {
                 // peer answers
@@ -551,6 +553,15 @@ impl<'a, R: RoleType, T: IsPacketId> Gen<'a, R, T> {
                     self.op(format!("send {} {}", v, hex(&b)));
                 }
             }
+        }
+    }
+
+    /// the transport reports a write error for the packet just requested: the application follows
+    /// the `release_packet_id_if_send_error` hint of the event (the acknowledgement may arrive anyway)
+    fn maybe_write_error(&mut self, id: u64) {
+        let hinted = self.s.out_lines.last().map(|l| l.split(" | ").nth(2).unwrap_or("").contains(&format!("}}{id}#"))).unwrap_or(false);
+        if hinted && self.rng.chance(1, 6) {
+            self.op(format!("release {id}"));
         }
     }
 
@@ -590,7 +601,15 @@ impl<'a, R: RoleType, T: IsPacketId> Gen<'a, R, T> {
 
     fn misc(&mut self) {
         match self.rng.below(14) {
-            0 => self.op("vacancy".into()),
+            0 => {
+                if self.rng.chance(1, 3) {
+                    // the offline-publish option may be switched at any time
+                    let on = self.rng.chance(1, 2) as u8;
+                    self.op(format!("set off {on}"));
+                } else {
+                    self.op("vacancy".into())
+                }
+            }
             1 => self.op("stored".into()),
             2 => self.op("handled".into()),
             3 if !self.legal => {
@@ -1389,8 +1408,14 @@ fn reuse_trial<R: RoleType, T: IsPacketId>(role: &'static str, ver: u8, steps: u
     }
     if !g.s.dead && g.rng.chance(1, 3) {
         // leave a half-received frame behind
-        let b = w_publish(if g.ver() == 0 { 5 } else { g.ver() }, g.pw(), 1, false, false, b"a", 1, &[], b"payload");
-        g.op(format!("recv {}", hex(&b[..b.len() - 3])));
+        match g.rng.below(3) {
+            0 => g.op("recv 30c8".into()),       // inside a two-byte Remaining Length field
+            1 => g.op("recv 30ffff".into()),     // inside a longer one
+            _ => {
+                let b = w_publish(if g.ver() == 0 { 5 } else { g.ver() }, g.pw(), 1, false, false, b"a", 1, &[], b"payload");
+                g.op(format!("recv {}", hex(&b[..b.len() - 3])));
+            }
+        }
     }
     g.op("closed".into());
     if g.s.dead {
